@@ -102,13 +102,27 @@ CHECKS['C20'] = {
     'technique': 'Hypothesis rule-based state machine with invariants after every step',
 }
 
+CHECKS['C07'] = {
+    'engine': 'E1-clustersim',
+    'category': 'exploration',
+    'text': ('Generated cluster episodes (tick phases, delays, inactivity_ticks 2-4, both auto_fence values; crashes, '
+             'restarts, symmetric cuts, one-way message losses, isolations, heals; processes running / stopping on the '
+             'victims); per ordered pair (observer, peer) the harness keeps its own record of TICK receptions, handshake '
+             'incarnations and failed calls and checks accuracy (no live peer declared lost), completeness (silence and '
+             'failed calls detected within the stated tick bounds, STOPPED / ISOLATED per the fencing rule, nothing left '
+             'listed on the lost instance) and the documented instance state graph.'),
+    'design_ref': 'DESIGN.md 5/C07',
+    'note': CLUSTER_NOTE,
+    'technique': 'Hypothesis-generated fault/delay histories on a cluster simulator, bounded-time detection oracle',
+}
+
 HOOK_COMMITS = []
 
 ENGINES = [
     {'name': 'E1-clustersim', 'path': 'clustersim/', 'kind_free_text':
         'deterministic cluster simulator: N real Supvisors instances in one process on a fake OS / network / clock; '
         'Hypothesis generates configuration and history; per-property monitors',
-     'serves_properties': ['C01', 'C02', 'C08', 'C16']},
+     'serves_properties': ['C01', 'C02', 'C07', 'C08', 'C16']},
     {'name': 'E3-solo', 'path': 'clustersim/solo.py', 'kind_free_text':
         'one real instance with puppet peers / pure component harnesses driven by Hypothesis',
      'serves_properties': ['C11', 'C15', 'C20']},
@@ -116,5 +130,5 @@ ENGINES = [
 
 _PENDING = 'check not built yet in this round (the technique applies; see DESIGN.md section 5)'
 NOT_APPLICABLE = {pid: _PENDING for pid in
-                  ['C03', 'C04', 'C05', 'C06', 'C07', 'C09', 'C10', 'C12', 'C13', 'C14',
+                  ['C03', 'C04', 'C05', 'C06', 'C09', 'C10', 'C12', 'C13', 'C14',
                    'C17', 'C18', 'C19']}
